@@ -244,8 +244,9 @@ Qed.
 
 (* copy(): old cells untouched; the copy is a detached proper tree made of cells that did not exist *)
 Lemma copy_repr_gen : forall h t n s, repr h None t -> NoDup (ids t) -> t_find n t = Some s ->
-  exists h' k, copy h n = Some (h', k) /\ stable h h' /\
-    exists s', tid s' = k /\ repr h' None s' /\ NoDup (ids s') /\ (forall j, In j (ids s') -> get h j = None).
+  exists h' k, copy h n = Some (h', k) /\ stable h h' /\ k = fresh h /\
+    exists s', s' = t_map (ren (ids s) k) s /\
+               tid s' = k /\ repr h' None s' /\ NoDup (ids s') /\ (forall j, In j (ids s') -> get h j = None).
 Proof.
   intros h t n s Hr Hnd Hfs.
   destruct (t_find_repr _ _ _ _ _ Hr Hfs) as [q Hrs].
@@ -259,7 +260,8 @@ Proof.
   set (l := ids s). set (h' := copy_cells h l (fresh h) n). set (r := ren l (fresh h)).
   split.
   { intros j nd Hg. unfold h'. rewrite (copy_cells_get_old h l n j nd Hg). exact Hg. }
-  exists (t_map r s). destruct s as [n' ts]. simpl in Ets. subst n'.
+  split; [reflexivity|].
+  exists (t_map r s). split; [reflexivity|]. destruct s as [n' ts]. simpl in Ets. subst n'.
   assert (Hnl : In n l) by (unfold l; simpl; auto).
   assert (Hrn : r n = fresh h).
   { unfold r, ren, l. simpl. rewrite N.eqb_refl. simpl. lia. }
@@ -292,17 +294,18 @@ Lemma copy_filter_step : forall d h t B sB,
   repr h None t -> NoDup (ids t) -> t_find B t = Some sB ->
   exists h1 k h1' u,
     copy h B = Some (h1, k) /\ hfilter (S (length h1)) (unroot k d) h1 k = Ok h1' /\
+    u = tfilter (unroot k d) (t_map (ren (ids sB) k) sB) /\
     tid u = k /\ repr h1' None u /\ NoDup (ids u) /\
     (forall j, In j (ids u) -> get h j = None) /\
     (forall p x, repr h p x -> repr h1' p x).
 Proof.
   intros d h t B sB Hr Hnd Hfs.
-  destruct (copy_repr_gen h t B sB Hr Hnd Hfs) as (h1 & k & Hc & Hst & u0 & Eu & Ru & Nu & Newu).
+  destruct (copy_repr_gen h t B sB Hr Hnd Hfs) as (h1 & k & Hc & Hst & _ & u0 & Eu0 & Eu & Ru & Nu & Newu).
   assert (Hd0 : unroot k d (tid u0) = false) by (rewrite Eu; apply unroot_root).
   destruct (hfilter_tree (unroot k d) h1 None u0 Ru Nu Hd0) as (h1' & Hf & Rf & Nf & If & Fr).
   rewrite Eu in Hf.
   exists h1, k, h1', (tfilter (unroot k d) u0).
-  split; [exact Hc|]. split; [exact Hf|]. split; [rewrite tid_tfilter; exact Eu|].
+  split; [exact Hc|]. split; [exact Hf|]. split; [rewrite Eu0; reflexivity|]. split; [rewrite tid_tfilter; exact Eu|].
   split; [exact Rf|]. split; [exact Nf|]. split.
   - intros j Hj. apply Newu. apply If. exact Hj.
   - intros p x Hx. apply repr_frame with (h := h1).
@@ -330,35 +333,44 @@ Proof.
   lia.
 Qed.
 
-Theorem repair_preserves_WF : forall d1 d2 d3 h r t B,
-  tid t = r -> repr h None t -> NoDup (ids t) -> In B (ids t) ->
+(* the specification of one repair at the level of trees: the heap afterwards represents the document in which the
+   subtree sB of the bad parent is replaced by  top copy, first child of the middle copy, bottom copy  (filtered renamed
+   copies of sB); after an exception it still represents the unchanged document *)
+Theorem repair_spec : forall d1 d2 d3 h r t B sB,
+  tid t = r -> repr h None t -> NoDup (ids t) -> t_find B t = Some sB ->
   match repair d1 d2 d3 h B with
-  | ROk h' => WF h' r
-  | RIndexError h' => WF h' r
-  | RNoParent h' => WF h' r /\ par h B = None
+  | ROk h' => exists k1 k2 k3 sm rest,
+      tkids (fcopy sB k2 d2) = sm :: rest /\
+      repr h' None (t_replace B [fcopy sB k1 d1; sm; fcopy sB k3 d3] t) /\
+      NoDup (ids (t_replace B [fcopy sB k1 d1; sm; fcopy sB k3 d3] t))
+  | RIndexError h' => repr h' None t /\ exists k2, tkids (fcopy sB k2 d2) = []
+  | RNoParent h' => repr h' None t /\ par h B = None
   | RErr => False
   end.
 Proof.
-  intros d1 d2 d3 h r t B Er Hr Hnd HB.
-  destruct (t_find_ex _ _ HB) as [sB Hfs].
+  intros d1 d2 d3 h r t B sB Er Hr Hnd Hfs.
+  assert (HB : In B (ids t)).
+  { destruct (t_find_some _ _ _ Hfs) as [Ets _]. apply (t_find_incl _ _ _ Hfs). rewrite <- Ets. apply tid_in_ids. }
   (* top copy *)
-  destruct (copy_filter_step d1 h t B sB Hr Hnd Hfs) as (h1 & k1 & h1' & u1 & Hc1 & Hf1 & Eu1 & Ru1 & Nu1 & New1 & T1).
+  destruct (copy_filter_step d1 h t B sB Hr Hnd Hfs) as (h1 & k1 & h1' & u1 & Hc1 & Hf1 & Du1 & Eu1 & Ru1 & Nu1 & New1 & T1).
   unfold repair. rewrite Hc1, Hf1.
   pose proof (T1 _ _ Hr) as Hr1.
   (* middle copy *)
-  destruct (copy_filter_step d2 h1' t B sB Hr1 Hnd Hfs) as (h2 & k2 & h2' & u2 & Hc2 & Hf2 & Eu2 & Ru2 & Nu2 & New2 & T2).
+  destruct (copy_filter_step d2 h1' t B sB Hr1 Hnd Hfs) as (h2 & k2 & h2' & u2 & Hc2 & Hf2 & Du2 & Eu2 & Ru2 & Nu2 & New2 & T2).
   rewrite Hc2, Hf2.
   pose proof (T2 _ _ Hr1) as Hr2. pose proof (T2 _ _ Ru1) as Ru1_2.
   destruct u2 as [k2' ts2]. cbn [tid] in Eu2. subst k2'.
   rewrite (repr_kids _ _ _ _ Ru2).
-  destruct ts2 as [|[m ks] ts2']; [exists t; auto|]. cbn [map tid]. set (sm := T m ks) in *.
+  destruct ts2 as [|[m ks] ts2'].
+  { split; [exact Hr2|]. exists k2. unfold fcopy. rewrite <- Du2. reflexivity. }
+  cbn [map tid]. set (sm := T m ks) in *.
   assert (Rsm2 : repr h2' (Some k2) sm) by (eapply repr_child; [exact Ru2 | simpl; auto]).
   (* bottom copy *)
-  destruct (copy_filter_step d3 h2' t B sB Hr2 Hnd Hfs) as (h3 & k3 & h3' & u3 & Hc3 & Hf3 & Eu3 & Ru3 & Nu3 & New3 & T3).
+  destruct (copy_filter_step d3 h2' t B sB Hr2 Hnd Hfs) as (h3 & k3 & h3' & u3 & Hc3 & Hf3 & Du3 & Eu3 & Ru3 & Nu3 & New3 & T3).
   rewrite Hc3, Hf3.
   pose proof (T3 _ _ Hr2) as Hr3. pose proof (T3 _ _ Ru1_2) as Ru1_3. pose proof (T3 _ _ Rsm2) as Rsm3.
   pose proof (repr_par_eq _ _ _ _ Hr Hr3 B HB) as Epar.
-  destruct (par h3' B) as [P|] eqn:HP3; [|split; [exists t; auto | exact Epar]].
+  destruct (par h3' B) as [P|] eqn:HP3; [|split; [exact Hr3 | exact Epar]].
   (* disjointness *)
   assert (Hsm_u2 : incl (ids sm) (ids (T k2 (sm :: ts2')))).
   { intros j Hj. change (ids (T k2 (sm :: ts2'))) with (k2 :: ids sm ++ flat_map ids ts2').
@@ -447,9 +459,29 @@ Proof.
           -- rewrite (GB j Hjm). reflexivity.
         * rewrite (GoA j HjP HjB Hnin), (GoB j HjP HjB Hnin). symmetry. apply GB.
           intro E. subst j. apply Hnin. simpl. auto. }
-  exists (t_replace B [u1; sm; u3] t). split; [rewrite tid_t_replace; exact Er|]. split.
+  exists k1, k2, k3, sm, ts2'. unfold fcopy. rewrite <- Du1, <- Du2, <- Du3.
+  split; [reflexivity|]. split.
   - apply repr_frame with (h := hB'); auto.
   - exact NtB'.
+Qed.
+
+Theorem repair_preserves_WF : forall d1 d2 d3 h r t B,
+  tid t = r -> repr h None t -> NoDup (ids t) -> In B (ids t) ->
+  match repair d1 d2 d3 h B with
+  | ROk h' => WF h' r
+  | RIndexError h' => WF h' r
+  | RNoParent h' => WF h' r /\ par h B = None
+  | RErr => False
+  end.
+Proof.
+  intros d1 d2 d3 h r t B Er Hr Hnd HB.
+  destruct (t_find_ex _ _ HB) as [sB Hfs].
+  pose proof (repair_spec d1 d2 d3 h r t B sB Er Hr Hnd Hfs) as H.
+  destruct (repair d1 d2 d3 h B) as [h'|h'|h'|]; auto.
+  - destruct H as (k1 & k2 & k3 & sm & rest & _ & R & Nd).
+    exists (t_replace B [fcopy sB k1 d1; sm; fcopy sB k3 d3] t). rewrite tid_t_replace. auto.
+  - destruct H as [R _]. exists t. auto.
+  - destruct H as [R E]. split; auto. exists t. auto.
 Qed.
 
 (* ================================================================ 6. any number of repairs *)
